@@ -185,3 +185,21 @@ package objectcore
 //@   assigns SearchResult.UpdatedSearchCursor
 //@ func MetaDataKVHandler$1
 //@   ensures [stops_only_when_no_later_key_can_match] !result && resHolder.Err == nil && !deref(more) ==> mch == object.MatchNumLT || mch == object.MatchNumLE || (i == 0 && (mch == object.MatchStringEqual || mch == object.MatchCommonPrefix))
+
+// A numeric filter on a secondary attribute is decided on the integer parsed from THAT
+// attribute's stored value: the parsed value is valid only from a successful ParseDecimal
+// until the next attribute value is fetched.
+//@ ghost field dbValueParsed(x int) bool
+//@ callrule c03_attribute_value_fetched in MetaDataKVHandler$1
+//@   callee (object.AttributeGetter).Get
+//@   assigns dbValueParsed
+//@   defines !dbValueParsed(0)
+//@ callrule c03_attribute_value_parsed in MetaDataKVHandler$1
+//@   callee signed256.ParseDecimal
+//@   assigns dbValueParsed
+//@   defines dbValueParsed(0) == (err == nil)
+//@ callrule c03_numeric_filter_uses_the_parsed_value_of_its_attribute in MetaDataKVHandler$1
+//@   callee object.intMatches
+//@   requires [integer_parsed_from_the_current_attribute_value] dbValueParsed(0)
+//@ func MetaDataKVHandler$1
+//@   loop 4 invariant dbValIsInt ==> dbValueParsed(0)
